@@ -16,7 +16,12 @@ ASSUMPTIONS = [
     'numbers parsed from the CODE_* table in ForthMachine.cpp',
     'signed overflow in + - * negate 1+ 1- is modelled as wrap-around (the documented behaviour); nsw-based UB is not reported',
     'shift words are specified for 0 <= amount < width only (C++ UB otherwise; listed as advisory)',
-    'outside: tokenizer/compiler/decompiler, control words, typed reads/writes, output buffers, pause/resume bookkeeping',
+    'program level (c19prog): the program text of each template is concrete and is compiled by the repository compiler run natively; the machine state after '
+    'begin() is built from that bytecode; step() / resume() are the real methods (std::chrono::now stubbed to an arbitrary value), called in a harness loop until '
+    'the program is done or an error is set; each case guard fixes trip counts (<= 3-4) and branch outcomes, all other cell / input byte values are symbolic; '
+    'loop bounds within +-1000 so that the loop index does not wrap; bool reads assume 0/1 bytes',
+    'outside: tokenizer/compiler/decompiler as such (exercised only on the concrete templates), float reads, nbit/varint/textual reads at program level, '
+    'output writes at program level, recursion-limit faults',
 ]
 
 FM = 'src/libawkward/forth/ForthMachine.cpp'
@@ -344,6 +349,8 @@ def jobs(tier):
     for T in (32, 64):
         for w in WORDS:
             js.append((h_step, (w, T), 900))
+    from . import c19prog
+    js += c19prog.jobs(tier)
     return js
 
 
